@@ -31,3 +31,15 @@ Definition is_tie (exact : bool) (rates : list Qc) : bool :=
   match distinct_rates exact rates with _ :: _ :: _ => true | _ => false end.
 
 Definition worst (a b : N) : N := N.max a b.
+
+(* A command run with `-X T` where T is a name neither the ledger nor the price DB mentions
+   (never written anywhere, or differing from a known commodity only by case).  The command
+   has nothing to convert into: it must fail saying `commodity T not found`
+   (Model/CliOptions.v to_conversion; C10: never leaves an amount unconverted).
+   UNotFound: it did.  UReport: it printed a report / a value (exit 0).  UOther: it failed
+   with something else. *)
+Inductive uobs := UNotFound | UReport | UOther.
+Definition classify_unknown (u : uobs) : N :=
+  match u with UNotFound => 0 | UReport => 2 | UOther => 1 end%N.
+Definition classify_unknowns (us : list uobs) : N :=
+  fold_left (fun acc u => worst acc (classify_unknown u)) us 0%N.
